@@ -135,10 +135,16 @@ def run_case(case, acc):
             fobj = open(path, 'wb')
             target = fobj
         s = RawSink()
-        s.subscribe_to(rx.from_(rows).pipe(rsparquet.dump_to_file(target, schema, batch_size=b, compression=codec,
-                                                                  row_group_size=case.get('row_group_size'))))
+        dump_obs = rx.from_(rows).pipe(rsparquet.dump_to_file(target, schema, batch_size=b, compression=codec,
+                                                              row_group_size=case.get('row_group_size')))
+        s.subscribe_to(dump_obs)
         if fobj is not None:
             fobj.close()
+        elif n <= 4:
+            # the same observable subscribed again rewrites the same file (the content is compared below)
+            s = RawSink()
+            s.subscribe_to(dump_obs)
+            acc.count('second_subscriptions')
         acc.evals += 1
         acc.events += n + 1
         cfg = {k: v for k, v in case.items()}
